@@ -40,7 +40,7 @@ pub fn static_checks(gv: &GraphView, text: &str, acc: &mut Acc) {
             let bn = &gv.nodes[*b];
             let fall = *b == a.idx + 1 && can_fall;
             let target = a.jumps_to.as_ref().is_some_and(|l| bn.labels.contains(l));
-            let merge = a.jumps_to.as_deref() == Some("__return__")
+            let merge = matches!(a.jumps_to.as_deref(), Some("__return__" | "<return>"))
                 && a.funcs.iter().any(|f| gv.funcs[*f].exit == *b);
             if !(fall || target || merge) {
                 acc.violation(
